@@ -81,11 +81,10 @@ impl Cpu {
             r.is_err() ==> final(self).sync_log@ == old(self).sync_log@,
     { unimplemented!() }
 
-    /// R6: `self.module_manager.borrow_mut().update_modules(&mut self.bus, state, &mut self.interrupt_controller)`
-    /// - the peripherals are shown `state`; they may raise interrupt requests and write their own
-    /// registers (C17 frame) but not the time base
+    /// R6b: `self.modules.timer8_0.update_timer8_0(bus, state, interrupt_controller)` - the timer is shown
+    /// `state`; it may raise interrupt requests and write its own registers (C17 frame) but not the time base
     #[verifier::external_body]
-    pub fn update_modules_link(&mut self, state: u8) -> (r: Result<(), Error>)
+    pub fn timer8_0_link(&mut self, state: u8) -> (r: Result<(), Error>)
         ensures
             final(self).state_sum == old(self).state_sum && final(self).exit_addr == old(self).exit_addr
             && final(self).bus.cpu_state_sum == old(self).bus.cpu_state_sum
@@ -104,6 +103,13 @@ pub fn host_setting_wait_start() -> (r: bool) { unimplemented!() }
 #[verifier::external_body]
 pub fn host_setting_print_opcode() -> (r: bool) { unimplemented!() }
 
+//@ fn update_modules
+        ensures
+            final(self).state_sum == old(self).state_sum && final(self).exit_addr == old(self).exit_addr
+            && final(self).bus.cpu_state_sum == old(self).bus.cpu_state_sum
+            && final(self).sync_log@ == old(self).sync_log@ && final(self).exec_failed@ == old(self).exec_failed@
+            && final(self).pc == old(self).pc,
+            final(self).charges@ == old(self).charges@.push(state as int), // OBL:C13/update_modules/peripherals_are_clocked_with_exactly_the_amount_passed
 //@ fn run
         requires
             old(self).state_sum == 0,
